@@ -42,6 +42,14 @@ def cases(tier, seed):
         for d in range(draws * 2 if cls in ("int", "sparse", "pure_imag", "single_axis", "gauss") else draws):
             out.append({"kind": "entries", "cls": "entries:" + cls, "entry": cls, "idx": idx, "seed": seed, "maxd": maxd})
             idx += 1
+    # size ladder: dimensions above every plausible algorithm-switch threshold (8 / 16 / 24 / 32), every truncation rank
+    for dims in ([(25, 25), (30, 48), (40, 32), (26, 27), (33, 17), (17, 33)] if tier == "quick" else
+                 [(a, b) for a in (9, 17, 25, 33, 40, 64) for b in (9, 16, 26, 33, 48, 65)]):
+        out.append({"kind": "spectrum", "cls": "spectrum:" + PATTERNS[idx % len(PATTERNS)], "pat": PATTERNS[idx % len(PATTERNS)], "idx": idx,
+                    "seed": seed, "maxd": maxd, "dims": list(dims)})
+        idx += 1
+        out.append({"kind": "entries", "cls": "entries:gauss", "entry": "gauss", "idx": idx, "seed": seed, "maxd": maxd, "dims": list(dims)})
+        idx += 1
     for d in range(draws * 2):
         out.append({"kind": "layout", "cls": "layout", "idx": idx, "seed": seed, "maxd": maxd})
         idx += 1
@@ -268,6 +276,9 @@ def _spectrum(spec, ctx, R):
     rng = gen.rng_for(spec["seed"], "c05spec", spec["idx"])
     pat = spec["pat"]
     m, n = _shape(rng, spec["maxd"], spec["idx"])
+    if "dims" in spec:
+        m, n = spec["dims"]
+        ctx.hit("size:ladder")
     if pat in ("unitary", "identity", "scaled_unitary"):
         m = n = max(m, n)
         if pat == "identity":
@@ -294,6 +305,8 @@ def _spectrum(spec, ctx, R):
 def _entries(spec, ctx, R):
     rng = gen.rng_for(spec["seed"], "c05ent", spec["idx"])
     m, n = _shape(rng, spec["maxd"], spec["idx"])
+    if "dims" in spec:
+        m, n = spec["dims"]
     A = gen.entries(rng, spec["entry"], m, n)
     s_true = embed.svals(A)
     if ambiguous(s_true):
